@@ -33,19 +33,26 @@ class Tier:
 def make_ops(r, meta, files):
     E = list(meta["enable"])
     ops = [{"op": "probe", "enable": list(E)}]
-    style = r.choice(["loop_only", "steps_then_loop", "steps_then_loop", "autofix_first", "restart_every", "stale", "crashy"])
+    style = r.choice(["loop_only", "steps_then_loop", "steps_then_loop", "autofix_first", "autofix_drain", "autofix_drain", "restart_every", "stale", "crashy"])
     p_restart = {"restart_every": 1.0, "stale": 0.0}.get(style, r.choice([0.0, 0.3, 0.6]))
     p_alt = r.choice([0.0, 0.3, 0.7])
     p_crash = 0.5 if style == "crashy" and len(files) > 1 else 0.0
     n_steps = 0 if style == "loop_only" else r.randint(1, 6)
+    if style == "autofix_drain":
+        # apply proposed fixes one after the other until (nearly) all of them have been through
+        n_steps = r.randint(8, 14)
     faultless = p_crash == 0.0
     for s in range(n_steps):
-        if style == "autofix_first":
+        if style == "autofix_drain":
+            mode = "autofix"
+        elif style == "autofix_first":
             mode = "autofix" if s < n_steps - 1 or r.chance(0.5) else "add_ignores"
         else:
             mode = "autofix" if r.chance(0.45) else "add_ignores"
         op = {"op": "iter", "mode": mode, "enable": list(E)}
-        if r.chance(p_alt):
+        if r.chance(p_alt) or (style == "autofix_drain" and r.chance(0.8)):
+            # pyanalyze applies changes[0] only, which is often a diagnostic without replacement;
+            # alt=j makes the j-th applicable change the first (what accepting that patch in -f does)
             op["alt"] = r.randint(1, 5)
         if r.chance(p_crash):
             op["crash_after"] = r.randint(0, len(files) - 1)
